@@ -534,6 +534,32 @@ def check_p3(ctx) -> None:
                 ctx.bad('P3', f'{d.owner}.{d.attr}/declared-outside-init', d.where,
                         f'parameter object {d.name!r} is created outside __init__ '
                         f'({"module/class level" if fn is None else getattr(fn, "name", "lambda")}): shared between runs')
+    # list/dict-valued arguments of a declaration must be fresh per instance (a shared default list is mutated in place
+    # by the readers: `value.append`, `value[i] = ...`)
+    n_listargs = 0
+    for d in reg.decls:
+        for k in ('value', 'DefaultValue'):
+            a = d.arg_nodes.get(k)
+            if a is None:
+                continue
+            if isinstance(a, (ast.List, ast.ListComp, ast.Dict)) or \
+                    (isinstance(a, ast.Call) and (dotted_name(a.func) or '').split('.')[-1] in ('list', 'dict', 'copy', 'deepcopy', 'array', 'zeros')):
+                n_listargs += 1
+                continue
+            if d.kind == 'listParameter' and isinstance(a, (ast.Name, ast.Attribute)):
+                n_listargs += 1
+                dn = dotted_name(a) or ''
+                fn = enclosing_function(d.node)
+                fresh_local = False
+                if isinstance(a, ast.Name) and fn is not None:
+                    defs = [st for st in ast.walk(fn) if isinstance(st, ast.Assign) and norm(st.targets[0]) == a.id]
+                    fresh_local = bool(defs) and all(isinstance(st.value, (ast.List, ast.ListComp)) or
+                                                     (isinstance(st.value, ast.Call) and (dotted_name(st.value.func) or '').split('.')[-1] in ('list', 'copy', 'deepcopy'))
+                                                     for st in defs)
+                ctx.check(fresh_local, 'P3', f'{d.owner}.{d.attr}/{k}-shared-object', d.where,
+                          f'list parameter {d.name!r} takes {k}={dn}, an object that outlives the instance (class/module level): '
+                          f'in-place edits by one run (append / item assignment in the readers) leak into every later run')
+    ctx.analysed['list_valued_declaration_arguments'] = n_listargs
     ctx.ok('P3', 'registry/all-declarations-in-__init__', 'src/', f'{len(reg.decls) - outside} of {len(reg.decls)} declarations')
     ctx.floor('P3', len(reg.decls), 500, 'parameter declarations')
     # Model.__init__ creates the role objects afresh (constructor calls, no reuse of module-level instances)
@@ -664,7 +690,13 @@ def check_p4(ctx) -> None:
     for mi in repo.modules.values():
         for loop in [x for x in ast.walk(mi.tree) if isinstance(x, (ast.For, ast.comprehension))]:
             it = loop.iter
-            if isinstance(it, ast.Set) or (isinstance(it, ast.Call) and dotted_name(it.func) in ('set', 'frozenset')):
+            setop = isinstance(it, ast.BinOp) and isinstance(it.op, (ast.BitAnd, ast.BitOr, ast.BitXor, ast.Sub)) and any(
+                (isinstance(o, ast.Call) and isinstance(o.func, ast.Attribute) and o.func.attr in ('keys', 'items')) or
+                isinstance(o, ast.Set) or (isinstance(o, ast.Call) and dotted_name(o.func) in ('set', 'frozenset'))
+                for o in (it.left, it.right))
+            setmeth = isinstance(it, ast.Call) and isinstance(it.func, ast.Attribute) and it.func.attr in (
+                'intersection', 'union', 'difference', 'symmetric_difference')
+            if setop or setmeth or isinstance(it, ast.Set) or (isinstance(it, ast.Call) and dotted_name(it.func) in ('set', 'frozenset')):
                 n += 1
                 ctx.bad('P4', f'{mi.base}/set-iteration:{norm(it)[:40]}', f'{mi.rel}:{it.lineno}',
                         'iteration over a set: order depends on the hash seed')
